@@ -331,7 +331,9 @@ func runWsTrial(id int, seed int64, url string) *wsTrialResult {
 			fail("C13: %d error reports after %s (expected exactly one)", reports, kind)
 		}
 	}
-	if afterErr > 0 {
+	// the one message whose read completed before the connection was closed may still be handed over
+	// (C13_transport_loss: deliveredAfterClose <= 1); more than one is a violation
+	if afterErr > 1 {
 		fail("C13: %d messages delivered after the error report", afterErr)
 	}
 	if ndel > peerSent+1 {
